@@ -5,6 +5,7 @@ package k8s
 import (
 	corev1 "k8s.io/api/core/v1"
 	"k8s.io/apimachinery/pkg/util/sets"
+	"sigs.k8s.io/controller-runtime/pkg/client"
 
 	"github.com/AliyunContainerService/terway/types/daemon"
 )
@@ -16,3 +17,8 @@ func VerifConvertPod(daemonMode string, enableErdma bool, kinds sets.Set[string]
 }
 
 func VerifDeserialize(data []byte) (interface{}, error) { return deserialize(data) }
+
+// VerifPodExist asks the daemon's PodExist (the question the node GC asks before it collects a record) against a client.
+func VerifPodExist(c client.Client, nodeName, namespace, name string) (bool, error) {
+	return (&k8s{client: c, nodeName: nodeName}).PodExist(namespace, name)
+}
